@@ -264,10 +264,11 @@ PROPS["C17"] = dict(
                "configured thresholds on and maps (canister height, target) to NotEnoughData/Behind/Ahead/Ok as stated; and that the flag target is Enabled exactly for Ok",
     level_note="heights in [behind threshold, 2^62) (the property's own domain; beyond it the repo's i64 casts wrap); the bound is the CONCRETE number of explorer "
                "entries, enumerated up to the largest shipped list; composition of the three modular results is by contract (stubs), not re-proved end to end; "
-               "that every provider's slot is overwritten in every round is in async fetch code (not decided)",
+               "storage::insert_block_info REPLACES a provider's entry (Verus, closure body slice: final map == old map.insert(provider, info)), so a failed fetch erases the "
+               "height of an earlier round; that every provider's slot is written in every round is in async fetch code (not decided)",
     explanation="std's sort makes a monolithic CBMC proof infeasible beyond 3 elements, hence the modular split with Verus carrying the sort-dependent part.",
     unverified_links=[
-        "watchdog/src/fetch.rs fetch_all_providers_data (async, join_all) writing every provider's BlockInfo each round; storage::insert_block_info",
+        "watchdog/src/fetch.rs fetch_all_providers_data (async, join_all) writing every provider's BlockInfo each round",
         "synchronise_api_access (async): acts only when target is Some and differs from the canister's flag (by inspection)",
     ],
     assumptions=COMMON_ASSUMPTIONS + ["heights < 2^62, thresholds <= 10^6", "slice::sort yields the sorted permutation"],
@@ -275,16 +276,19 @@ PROPS["C17"] = dict(
 
 PROPS["C18"] = dict(
     verus_units=["watchdog"],
-    technique="Verus contracts on endpoints.rs::apply_to_body and apply_to_body_json (the two wrappers every transform goes through), closures by their requires/ensures",
+    technique="Verus contracts on endpoints.rs::apply_to_body and apply_to_body_json (the two wrappers every transform goes through) and on the ten per-endpoint extractor closures (slices)",
     level_text="unbounded deductive proof (any status, any number/size of headers, any body bytes) that apply_to_body returns, with no headers, the original status and a "
                "body that is empty unless the status is 200 and the body is UTF-8 text, in which case it is exactly the extractor's output for that text; and that "
                "apply_to_body_json's body is empty or print(extractor(parse(text))) — a function of the parsed value only",
     level_note="PARTIAL: serde_json::from_str / Value::to_string are uninterpreted functions (their insensitivity to whitespace and member order and the canonical "
-               "printed form are serde_json's, not decided); the ten per-endpoint extractor closures (json! + Index + as_u64, text.parse::<u64>()) are not under contract: "
-               "that they keep only the single member `height` and never trap is NOT decided here; the closure inside apply_to_body_json is annotated by a reported R9 rewrite",
+               "printed form are serde_json's, not decided); the ten per-endpoint extractor closures are verified as R8 slices against 'the result is the object with the "
+               "single member height, a non-negative integer or null' (JSON endpoints) / 'empty or print of that object' (plain-text endpoints), with json!, Value indexing "
+               "and the integer accessors modelled by typed stand-ins (R13); the closure inside apply_to_body_json is annotated by a reported R9 rewrite; wrapper and "
+               "extractor contracts compose by inspection (the closure is a separate slice)",
     explanation="the wrappers guarantee stripping (headers, everything outside the extractor's output) and totality for everything that is not produced by the extractor closure.",
     unverified_links=[
-        "the ten endpoint closures in endpoints.rs:17-241 (serde_json Index / as_u64 / json!, str::parse)",
+        "serde_json's Index / as_u64 / json! themselves (typed stand-ins), str::parse (uninterpreted)",
+        "the composition 'wrapper contract + extractor contract' (the extractor is handed over as a closure: by inspection)",
         "candid::Nat comparison with 200u8, String::from_utf8 / into_bytes, serde_json parse/print (assumed specs)",
     ],
     assumptions=COMMON_ASSUMPTIONS + ["the extractor closure is total"],
